@@ -357,7 +357,7 @@ impl Model {
                 }
                 Expect::Ddl
             }
-            Stmt::DropTable { name } => {
+            Stmt::DropTable { name, .. } => {
                 let Some(ti) = self.find_table(tx, name) else { return Expect::Fail("unknown table") };
                 // somebody else is dropping the table (or dropped it after we began): write-write conflict
                 if self.tables[ti].droppers.iter().any(|d| *d != tx && self.concurrent(tx, *d)) {
